@@ -414,6 +414,27 @@ class Interp:
                 env.pop(t.id, None)
         return env
 
+    def st_Match(self, st, env, fr):
+        """a match statement that the canonicalisation did not lower: every case body runs from the environment before the
+        match (captured names are of unknown kind), the results are joined"""
+        self.ev(st.subject, env, fr)
+        out = None
+        irrefutable = False
+        for case in st.cases:
+            e = _copy(env)
+            for x in ast.walk(case.pattern):
+                nm = getattr(x, "name", None)
+                if isinstance(x, (ast.MatchAs, ast.MatchStar)) and nm:
+                    e[nm] = TOP
+                if isinstance(x, ast.MatchMapping) and x.rest:
+                    e[x.rest] = TOP
+            if case.guard is not None:
+                self.ev(case.guard, e, fr)
+            out = join_env(out, self.block(case.body, e, fr))
+            if case.guard is None and isinstance(case.pattern, ast.MatchAs) and case.pattern.pattern is None:
+                irrefutable = True
+        return out if irrefutable else join_env(out, _copy(env))
+
     def st_If(self, st, env, fr):
         self.ev(st.test, env, fr)
         tv = self.truth(st.test, env, fr)
